@@ -131,6 +131,10 @@ def run(ctx):
     named = I.call(fm, ["H2O"], {"table": T, "name": "water"})
     ctx.check(text_of(named) == "water" and I.call(I.getattr(named, "__repr__"), [], {}) == "formula('water')", "R3",
               "a named formula prints its name", f"{text_of(named)!r}", fsite(ctx, "formulas.Formula.__str__"))
+    quoted = I.call(fm, ["H2O"], {"table": T, "name": "5' cap \\ tail"})
+    rq = I.call(I.getattr(quoted, "__repr__"), [], {})
+    ctx.check(rq == "formula('5' cap \\ tail')", "R3", "repr is formula('<str>') also when the text holds a quote or a backslash (it is shown, not escaped)",
+              f"{rq!r}", fsite(ctx, "formulas.Formula.__repr__"))
     e = I.call(fm, [], {})
     ctx.check(text_of(e) == "" and eqf(parse(""), e) is True, "R3", "the empty formula prints as '' and parses back", f"{text_of(e)!r}", site)
     # printing is recomputed after arithmetic (no stale text)
@@ -140,7 +144,7 @@ def run(ctx):
     ctx.check(text_of(w3) == "(H2O)3", "R3", "str(3*f) after str(f) was taken shows the product", f"{text_of(w3)!r}", fsite(ctx, "formulas.Formula.__str__"))
     I.call(I.getattr(wf, "__iadd__"), [parse("NaCl")], {})
     ctx.check(text_of(wf) == "H2ONaCl", "R3", "str(f) after f += g shows the sum", f"{text_of(wf)!r}", fsite(ctx, "formulas.Formula.__str__"))
-    ctx.floor("R3", 7)
+    ctx.floor("R3", 8)
 
     # ---- R4 seeded formulas from parsing, arithmetic and mixtures --------------------------------------------------
     gen = G.Gen(ctx.seed + 101, base)
